@@ -521,3 +521,44 @@ EQUIVALENTS += [
     {"id": "e27", "props": ["C14", "C01", "C09"], "why": "`import a as c` through __import__('a') binds the same module; dotted aliases take the attribute path anyway (former mutant n53)",
      "files": [(PN, "            if _alias.asname is not None:\n                asname = _alias.asname\n", "            if _alias.asname is not None:\n                asname = _alias.asname\n                import_func = Name(id=\"__import__\", ctx=Load())\n")]},
 ]
+
+# a dedicated Lambda handler that also rewrites the defaults: with every kw_defaults entry kept in its
+# position (e28, must stay silent) and with the None entries filtered out (r16: the list is shorter than
+# kwonlyargs); r17: class-level reads of a name that nested scopes read as a global go to the class dict
+# unless a comprehension is open (the body of a lambda is read in the class-level state)
+ET = "oneliner/expr_transform.py"
+NS = "oneliner/namespaces.py"
+_LAM_HEAD = "class PendingComp(PendingExprGeneric[_CompNode]):\n"
+_LAM_CLS = (
+    "class PendingLambda(PendingExprGeneric[Lambda]):\n"
+    "    def _iter_fields(self):\n"
+    "        args = self.node.args\n"
+    "        defaults = []\n"
+    "        for default in args.defaults:\n"
+    "            defaults.append((yield default))\n"
+    "        kw_defaults = []\n"
+    "        for default in args.kw_defaults:\n"
+    "            if default is not None:\n"
+    "                kw_defaults.append((yield default))\n"
+    "%s"
+    "        self.converted_dict[\"args\"] = arguments(\n"
+    "            posonlyargs=args.posonlyargs,\n"
+    "            args=args.args,\n"
+    "            vararg=args.vararg,\n"
+    "            kwonlyargs=args.kwonlyargs,\n"
+    "            kw_defaults=kw_defaults,\n"
+    "            kwarg=args.kwarg,\n"
+    "            defaults=defaults,\n"
+    "        )\n"
+    "        self.converted_dict[\"body\"] = yield self.node.body\n"
+    "\n\n"
+)
+_LAM_DISPATCH = ("        elif isinstance(node, (Yield, YieldFrom, Await)):\n", "        elif isinstance(node, Lambda):\n            return PendingLambda(node)\n        elif isinstance(node, (Yield, YieldFrom, Await)):\n")
+EQUIVALENTS += [
+    {"id": "e28", "props": ["C06", "C08", "C01", "C11", "C02"], "why": "dedicated Lambda handler that rewrites the defaults and keeps the None entries of kw_defaults in place",
+     "files": [(ET, _LAM_HEAD, _LAM_CLS % "            else:\n                kw_defaults.append(None)\n" + _LAM_HEAD), (ET,) + _LAM_DISPATCH]},
+]
+MUTANTS += [
+    {"id": "r16", "prop": "C06", "expect": ["C06-R1"], "files": [(ET, _LAM_HEAD, _LAM_CLS % "" + _LAM_HEAD), (ET,) + _LAM_DISPATCH]},
+    {"id": "r17", "prop": "C06", "expect": ["C06-R3"], "files": [(NS, "        if name in self.globals_used_in_comp:\n            return Name(id=name, ctx=Load())\n", "        if name in self.globals_used_in_comp and self.comp_stack:\n            return Name(id=name, ctx=Load())\n")]},
+]
